@@ -1,11 +1,13 @@
 #!/bin/bash
 # tools/all.sh <quick|thorough> [seed] : run every registered check once on the unchanged tree,
-# print one line per check (exit code, VIOLATION lines, summary line).
+# print one line per check (exit code, VIOLATION lines, summary line). Works from wherever this
+# copy of the framework lives (a `vp run` snapshot included).
 TIER=${1:-quick}; SEED=${2:-1}
+ROOT=$(cd "$(dirname "$0")/.." && pwd)
 export VERIF_SEED=$SEED VERIF_TIER=$TIER
-mkdir -p /verif/.logs
-for id in $(python3 -c "import json; print(' '.join(sorted(json.load(open('/verif/checks.json')).keys())))"); do
+mkdir -p "$ROOT/.logs"
+for id in $(python3 -c "import json; print(' '.join(sorted(json.load(open('$ROOT/checks.json')).keys())))"); do
   t0=$(date +%s)
-  (cd /verif && ./check $id $TIER > /verif/.logs/$id.$TIER.$SEED.log 2>&1); rc=$?
-  echo "$id $TIER seed=$SEED rc=$rc viol=$(grep -c '^VIOLATION' /verif/.logs/$id.$TIER.$SEED.log) $(( $(date +%s) - t0 ))s :: $(tail -1 /verif/.logs/$id.$TIER.$SEED.log | cut -c1-160)"
+  (cd "$ROOT" && ./check $id $TIER > "$ROOT/.logs/$id.$TIER.$SEED.log" 2>&1); rc=$?
+  echo "$id $TIER seed=$SEED rc=$rc viol=$(grep -c '^VIOLATION' "$ROOT/.logs/$id.$TIER.$SEED.log") $(( $(date +%s) - t0 ))s :: $(tail -1 "$ROOT/.logs/$id.$TIER.$SEED.log" | cut -c1-160)"
 done
